@@ -400,9 +400,8 @@ func Slice(v ssa.Value, through func(c *ssa.Call) bool) map[ssa.Value]bool {
 				for _, a := range x.Call.Args {
 					walk(a)
 				}
-				if !x.Call.IsInvoke() {
-					walk(x.Call.Value)
-				}
+				// the callee value of a function call, the receiver of an interface call
+				walk(x.Call.Value)
 			}
 		case *ssa.MakeClosure:
 			for _, b := range x.Bindings {
